@@ -217,4 +217,11 @@ example : WFExtra { extra := [88, 89, 1, 0, 7, 66, 67, 2, 0, 1, 2] } := by
 example : hasEOF magicBlock = true := by decide
 example : (closeOutput toyCodec {} [[1], []]).2 = none := by rfl
 
+/-- the codec laws (with the size bound) are satisfiable -/
+example : ∃ c : Codec, Bounded c.toCodecFns := ⟨Toy.codec, Toy.bounded⟩
+/-- an instance of the stream theorems for a concrete script, header and the toy codec -/
+example := stream_conformant Toy.codec { name := [0x66], extra := [88, 89, 1, 0, 7], mtime := 0x00024342 }
+  (by simp only [WFExtra]; rw [Rfc1952.subfields]; simp [Rfc1952.le16, Rfc1952.subfields])
+  [Op.write [1, 2, 3], Op.flush, Op.write [4], Op.close] rfl
+
 end Hts.Props.C08
